@@ -61,7 +61,9 @@ def render(v):
   if k == 'tuple':
     return '(' + ', '.join(render(x) for x in v[1]) + (',' if len(v[1]) == 1 else '') + ')'
   if k == 'dict':
-    return '{' + ', '.join(f'{key!r}: {render(x)}' for key, x in v[1]) + '}'
+    # keys are plain strings or (uncalled) references: `{@prodA: 1, 'k': 2}`
+    return '{' + ', '.join(f'{render(key) if isinstance(key, list) else repr(key)}: {render(x)}'
+                           for key, x in v[1]) + '}'
   raise ValueError(v)
 
 
@@ -72,7 +74,9 @@ def leaves(v, depth=0):
     for x in v[1]:
       yield from leaves(x, depth + 1)
   elif v[0] == 'dict':
-    for _, x in v[1]:
+    for key, x in v[1]:
+      if isinstance(key, list):
+        yield key, depth + 1
       yield from leaves(x, depth + 1)
 
 
@@ -152,10 +156,16 @@ def check_case(case):
       for i, (ri, vi) in enumerate(zip(r, v[1])):
         walk(ri, vi, floor, f'{where}[{i}]', seen)
     elif k == 'dict':
-      require(type(r) is dict and list(r) == [key for key, _ in v[1]], 'container-differs',
+      require(type(r) is dict and len(r) == len(v[1]), 'container-differs',
               lambda: f'{where}: {r!r} vs {render(v)}')
-      for key, vi in v[1]:
-        walk(r[key], vi, floor, f'{where}[{key!r}]', seen)
+      for (rk, rv), (key, vi) in zip(r.items(), v[1]):
+        if isinstance(key, list):
+          # a reference in key position is delivered like any other: the configurable itself
+          labels.add('reference-as-dict-key')
+          walk(rk, key, floor, f'{where}.key({render(key)})', seen)
+        else:
+          require(rk == key, 'container-differs', lambda: f'{where}: {r!r} vs {render(v)}')
+        walk(rv, vi, floor, f'{where}[{key!r}]', seen)
 
   def mutate(r):
     if isinstance(r, list):
@@ -295,7 +305,13 @@ def _tree(depth):
       st.lists(sub, max_size=3).map(lambda xs: ['tuple', xs]),
       st.lists(sub, min_size=1, max_size=2).map(lambda xs: ['list', xs]),
       st.lists(st.tuples(st.sampled_from(['k1', 'k2', 'k3']), sub).map(list), min_size=1,
-               max_size=3, unique_by=lambda kv: kv[0]).map(lambda xs: ['dict', xs]))
+               max_size=3, unique_by=lambda kv: kv[0]).map(lambda xs: ['dict', xs]),
+      st.lists(st.tuples(
+          st.sampled_from(['k1', 'k2']) |
+          st.tuples(st.sampled_from(REF_SCOPES), st.sampled_from(PRODUCERS)).map(
+              lambda t: ['ref', t[0], t[1], False]), sub).map(list),
+               min_size=1, max_size=3, unique_by=lambda kv: repr(kv[0])).map(
+                   lambda xs: ['dict', xs]))
 
 
 @st.composite
